@@ -298,6 +298,13 @@ func oracleC20(s *Sim, y *Sys) {
 				continue
 			}
 			fb, _ := f.Meta.(*flushBarrier)
+			fr, _ := f.Res.(*flushReturn)
+			stillBuffered := map[string]bool{}
+			if fr != nil {
+				for _, k := range fr.Buffered {
+					stillBuffered[k] = true
+				}
+			}
 			for _, w := range h.Writes {
 				if !(w.Op.harvested && w.Op.Err == nil && w.Op.Return < f.Invoke) {
 					continue
@@ -310,6 +317,14 @@ func oracleC20(s *Sim, y *Sys) {
 					}
 					if fb != nil && q > fb.snap.LastSeq {
 						s.Violate("C20.flush-barrier", pol, "%s: point of write op%d is in seq %d > last issued %d observed after Flush", u, w.Op.ID, q, fb.snap.LastSeq)
+					}
+					// the same, as the caller itself sees it the moment Flush returns (concurrent
+					// writers may add to the buffer, but nothing accepted before the call is left in it)
+					if fr != nil && q > fr.LastSeq {
+						s.Violate("C20.flush-barrier", pol+":at-return", "%s: Flush op%d returned nil with last issued sequence number %d, but point %v of write op%d (returned before Flush was called) was cut into seq %d only later", u, f.ID, fr.LastSeq, p, w.Op.ID, q)
+					}
+					if fr != nil && stillBuffered[ptKey(p)] {
+						s.Violate("C20.buffer-after-flush", pol+":at-return", "%s: Flush op%d returned nil but point %v of write op%d (returned before Flush was called) is still in the visible buffer", u, f.ID, p, w.Op.ID)
 					}
 				}
 			}
@@ -389,6 +404,22 @@ func oracleC20(s *Sim, y *Sys) {
 				if uint32(sz) <= h.Spec.Size {
 					s.Violate("C20.size-cut-early", pol, "%s: chunk seq %d cut at %d bytes, threshold %d, without Flush/Close", u, a.Seq, sz, h.Spec.Size)
 				}
+				// cut when the threshold is FIRST exceeded: without the write that was appended last the
+				// buffer was at or below the threshold; whichever write that was, taking away the
+				// largest one must bring the chunk to the threshold or below
+				perWrite := map[int]int{}
+				for _, p := range a.Points {
+					perWrite[owner20(h, p)] += len(p.Payload)
+				}
+				largest := 0
+				for _, n := range perWrite {
+					if n > largest {
+						largest = n
+					}
+				}
+				if len(perWrite) > 1 && uint32(sz-largest) > h.Spec.Size {
+					s.Violate("C20.size-cut-late", pol, "%s: chunk seq %d holds %d bytes from %d writes, threshold %d: even without its largest write (%d bytes) the buffer already exceeded the threshold, so the cut came late", u, a.Seq, sz, len(perWrite), h.Spec.Size, largest)
+				}
 			}
 		}
 		if pol == "size" || pol == "interval-or-size" {
@@ -421,6 +452,18 @@ func oracleC20(s *Sim, y *Sys) {
 	}
 }
 
+func owner20(h *upH, p pt) int {
+	k := ptKey(p)
+	for _, w := range h.Writes {
+		for _, q := range w.Points {
+			if ptKey(q) == k {
+				return w.Op.ID
+			}
+		}
+	}
+	return -1
+}
+
 // oracleC20SizeModel: with one writer task and no flusher activity before the
 // chunk, chunk boundaries follow the running-sum model.
 func oracleC20SizeModel(s *Sim, h *upH) {
@@ -438,6 +481,9 @@ func oracleC20SizeModel(s *Sim, h *upH) {
 	for _, w := range h.Writes {
 		if !(w.Op.harvested && w.Op.Err == nil) {
 			continue
+		}
+		if c := h.CloseOp; c != nil && w.Op.Return > c.Invoke {
+			break // overlaps Close: where Close's flush cuts is not determined by the policy
 		}
 		for _, p := range w.Points {
 			sum += len(p.Payload)
